@@ -64,6 +64,12 @@ CHECKS = {
              "interception), outputs must be equal - counterexamples are replayed in fresh interpreters with different "
              "PYTHONHASHSEED; (b) the same tape before and after an unrelated solver-chosen fake(): outputs must be equal.",
         design="4/C17"),
+    "C18": dict(
+        text="Menu-bounded exhaustive enumeration driven by the solver: key and separator menu indices, optional flags, the "
+             "...: ... entry and the flat-key order are symbolic; CrossHair+z3 enumerate the finite product and confirm on "
+             "every member that the real rollout inverts flattening (leaf identity, optional markers) and is the identity on "
+             "nested input. (Dict insertion hashes keys, so keys cannot stay symbolic - stated.)",
+        design="4/C18"),
     "C10": dict(
         text="Bounded symbolic execution of the real declaration methods, one harness per call chain: every argument "
              "is a symbolic scalar of any of five types or a solver-chosen member of a wrong-type menu. Solver must "
